@@ -396,7 +396,7 @@ func TestVerifC16(t *testing.T) {
 	for _, f := range []string{"MIT.txt", "ISC.txt", "BSD-3-Clause.txt"} {
 		txt := lcNorm(lcRead(f))
 		mid := len(txt) / 2
-		for L := len(txt) * 17 / 100; L <= len(txt)*23/100; L++ {
+		for L := len(txt) * 22 / 100; L <= len(txt)*28/100; L++ { // confidence = 1 - L/(len+L) crosses 0.8 at L = len/4
 			rec.mm("lic", l, al, txt[:mid]+" "+strings.Repeat("q", L)+" "+txt[mid:], true, "", fmt.Sprintf("%s/splice%d", f, L))
 		}
 	}
